@@ -29,7 +29,7 @@ import (
 func init() { register("C03", runC03) }
 
 var c03Constructs = []string{"ProcessParallel", "ParallelForEach", "itertool.Worker", "Map", "GenerateParallel"}
-var c03Kinds = []string{"plain", "wrapped", "typed", "panic-error", "panic-string", "panic-int", "panic-eof", "panic-skip", "skip", "eof", "abort", "canceled"}
+var c03Kinds = []string{"plain", "wrapped", "typed", "panic-error", "panic-string", "panic-int", "panic-nilmap", "panic-eof", "panic-skip", "skip", "eof", "abort", "canceled"}
 var c03Excluded = []string{"none", "injected", "unrelated"}
 var c03Collectors = []string{"default", "erc", "custom"}
 
@@ -50,6 +50,7 @@ type c03Case struct {
 	ContPanic bool   `json:"continue_on_panic"`
 	InclCtx   bool   `json:"include_context_errors"`
 	Excluded  string `json:"excluded_errors"`
+	ExclHow   string `json:"excluded_errors_configured_by,omitempty"`
 	Collector string `json:"collector"`
 	Kind      string `json:"failure_kind"`
 	W         int    `json:"workers"`
@@ -91,6 +92,10 @@ func c03MakeFailure(kind string, pos int, base error) c03Failure {
 		return c03Failure{panicV: s, find: []error{ers.Error(s), fun.ErrRecoveredPanic}}
 	case "panic-int":
 		return c03Failure{panicV: 770000 + pos, find: []error{fun.ErrRecoveredPanic}, contain: strconv.Itoa(770000 + pos)}
+	case "panic-nilmap":
+		// a panic whose value is a nil map stored in the interface: recover()
+		// returns a non-nil interface, so this is a panic like any other
+		return c03Failure{panicV: map[string]int(nil), find: []error{fun.ErrRecoveredPanic}}
 	case "panic-eof":
 		return c03Failure{panicV: io.EOF, find: []error{io.EOF, fun.ErrRecoveredPanic}}
 	case "panic-skip":
@@ -112,7 +117,7 @@ func (c c03Case) classify() (reported, continues, asserted bool) {
 	switch c.Kind {
 	case "plain", "wrapped", "typed":
 		return c.Excluded != "injected", c.ContErr, true
-	case "panic-error", "panic-string", "panic-int", "panic-eof", "panic-skip":
+	case "panic-error", "panic-string", "panic-int", "panic-nilmap", "panic-eof", "panic-skip":
 		return true, c.ContPanic, true
 	case "skip":
 		return false, true, true
@@ -163,6 +168,9 @@ func runC03(r *kit.Run) {
 						rng := r.Rng("cell", cell)
 						c := c03Case{Construct: construct, ContErr: flags&1 != 0, ContPanic: flags&2 != 0, InclCtx: flags&4 != 0, Excluded: ex, Kind: kind}
 						c.Collector = c03Collectors[rng.IntN(3)]
+						if ex == "injected" {
+							c.ExclHow = []string{"one Add call", "two Add calls", "Set(conf) then Add(others)"}[rng.IntN(3)]
+						}
 						c.W = []int{1, 2, 4, 8}[rng.IntN(4)]
 						c.N = 50*c.W + rng.IntN(40)
 						if rng.IntN(4) == 0 {
@@ -303,6 +311,10 @@ func c03Run(r *kit.Run, idx int64, c c03Case, rng *rand.Rand, quiet bool) (after
 	}
 
 	var opts []fun.OptionProvider[*fun.WorkerGroupConf]
+	if c.Excluded == "injected" && c.ExclHow == "Set(conf) then Add(others)" {
+		// the list arrives with a whole configuration, more is added later
+		opts = append(opts, fun.WorkerGroupConfSet(&fun.WorkerGroupConf{ExcludedErrors: append([]error(nil), injectedBases...)}))
+	}
 	opts = append(opts, fun.WorkerGroupConfNumWorkers(c.W))
 	if c.ContErr {
 		opts = append(opts, fun.WorkerGroupConfContinueOnError())
@@ -315,7 +327,14 @@ func c03Run(r *kit.Run, idx int64, c c03Case, rng *rand.Rand, quiet bool) (after
 	}
 	switch c.Excluded {
 	case "injected":
-		opts = append(opts, fun.WorkerGroupConfAddExcludeErrors(injectedBases...))
+		switch c.ExclHow {
+		case "Set(conf) then Add(others)":
+			opts = append(opts, fun.WorkerGroupConfAddExcludeErrors(errors.New("unrelated")))
+		case "two Add calls":
+			opts = append(opts, fun.WorkerGroupConfAddExcludeErrors(injectedBases...), fun.WorkerGroupConfAddExcludeErrors(errors.New("unrelated"), ers.ErrInvalidInput))
+		default:
+			opts = append(opts, fun.WorkerGroupConfAddExcludeErrors(injectedBases...))
+		}
 	case "unrelated":
 		opts = append(opts, fun.WorkerGroupConfAddExcludeErrors(errors.New("unrelated"), ers.ErrInvalidInput))
 	}
